@@ -310,7 +310,7 @@ def main():
     ck.functions = ['PolyphaseFilterbank.__init__', 'PolyphaseFilterbank.channelize', 'PolyphaseFilterbank._reset_cache', 'pfb_frontend',
                     'get_pfb_window', 'get_pfb_voltages']
     ck.files = ['setigen/voltage/polyphase_filterbank.py']
-    ck.stubs = ['numpy.fft.fft / rfft -> exact DFT matrix (lengths 2,4,8; sqrt(1/2) as algebraic constant)', 'scipy.signal.firwin executed concretely, coefficients lifted exactly; a second window is fully symbolic']
+    ck.stubs = ['numpy.fft.fft / rfft -> exact DFT matrix (lengths 2,4,8; sqrt(1/2) as algebraic constant); for other lengths the twiddle factors are uninterpreted complex constants per length (zero-padding modelled)', 'scipy.signal.firwin executed concretely, coefficients lifted exactly; a second window is fully symbolic']
     ck.assumptions = ['exact real arithmetic (FFT round-off outside)', 'num_branches in {2,4,8}', '1/sqrt(P) is the binary64 value of P**0.5 as in the code']
     if ck.thorough:
         Ps, tapss, Wmax = (2, 4, 8), (1, 2, 3, 4), 6
@@ -328,6 +328,12 @@ def main():
                 jobs.append(('job_chunks', (P, taps, Wtot)))
             jobs.append(('job_cache_isolation', (P, taps)))
             jobs.append(('job_window_and_rfft', (P, taps, 2)))
+    # branch counts that are not powers of two (DFT twiddles as uninterpreted complex constants, one set per length):
+    # catches any use of a transform length other than num_branches
+    for P in ((3, 6, 13) if not ck.thorough else (3, 5, 6, 7, 12, 13, 26)):
+        for taps in (1, 2):
+            jobs.append(('job_definition', (P, taps, 2, False)))
+            jobs.append(('job_chunks', (P, taps, 3)))
     ck.run_jobs('props.C08', jobs, timeout_s=1200)
     ck.finish()
 
